@@ -635,6 +635,19 @@ func (r *c15Run) runNonexistent(in c15Input) {
 		var idx *updog.Index
 		var err error
 		g := c15Guarded(10*time.Second, func() { idx, err = updog.OpenIndex(path, c15Opts(opt)...) })
+		// whatever OpenIndex did: the path must still not exist and nothing may have appeared next to it
+		after := c15ListDir(dir)
+		statTarget := path
+		if target != "" {
+			statTarget = target
+		}
+		_, serr := os.Stat(statTarget)
+		if serr == nil || fmt.Sprint(before) != fmt.Sprint(after) {
+			r.report("nonexistent-created", c15Case{What: "OpenIndex on a nonexistent path created it, " + where, Input: in,
+				Expected: map[string]interface{}{"dir": before, "stat": "not exist", "OpenIndex": "error"},
+				Got:      map[string]interface{}{"dir": after, "stat_error": fmt.Sprint(serr), "OpenIndex": fmt.Sprintf("err=%v guard=%+v", err, g)}})
+			return
+		}
 		if g.Panic != "" || g.TimedOut {
 			r.report("nonexistent-panic", c15Case{What: "OpenIndex on a nonexistent path panics or hangs, " + where, Input: in, Expected: "an error", Got: fmt.Sprintf("%+v", g)})
 			return
@@ -644,17 +657,6 @@ func (r *c15Run) runNonexistent(in c15Input) {
 				c15Guarded(5*time.Second, func() { _ = idx.Close() })
 			}
 			r.report("nonexistent-accepted", c15Case{What: "OpenIndex on a nonexistent path succeeds, " + where, Input: in, Expected: "an error", Got: "no error"})
-			return
-		}
-		after := c15ListDir(dir)
-		statTarget := path
-		if target != "" {
-			statTarget = target
-		}
-		_, serr := os.Stat(statTarget)
-		if serr == nil || fmt.Sprint(before) != fmt.Sprint(after) {
-			r.report("nonexistent-created", c15Case{What: "OpenIndex on a nonexistent path created it, " + where, Input: in,
-				Expected: map[string]interface{}{"dir": before, "stat": "not exist"}, Got: map[string]interface{}{"dir": after, "stat_error": fmt.Sprint(serr)}})
 			return
 		}
 	}
